@@ -49,6 +49,21 @@ def fd5(f, x, h):
     return np.array(cols).T
 
 
+def kinks(f, x, h=1e-4):
+    """entries at which forward and backward differences disagree: the function is not differentiable there (absv at
+    0): such entries are not judged"""
+    n = x.size
+    f0 = f(x)
+    fw, bw = [], []
+    for j in range(n):
+        e = np.zeros(n)
+        e[j] = h
+        fw.append((f(x + e) - f0) / h)
+        bw.append((f0 - f(x - e)) / h)
+    fw, bw = np.array(fw).T, np.array(bw).T
+    return ~(np.abs(fw - bw) <= 1e-2 * (1 + np.abs(fw)))
+
+
 class OdeArm(Arm):
     name = "ode"
     budget = {"quick": 1200, "thorough": 10000}
@@ -146,6 +161,9 @@ class OdeArm(Arm):
                 res.violate("shape", f"Jacobian has shape {J.shape}, state dimension {c.n}")
                 return res
             smooth = np.isfinite(J1) & np.isfinite(J2) & (np.abs(J1 - J2) <= 1e-7 * (1 + np.abs(J1)))
+            if "absv" in funcs:
+                with np.errstate(all="ignore"):
+                    smooth &= ~kinks(f, y)
             bad = smooth & ~(np.abs(J - J1) <= 1e-6 * (1 + np.abs(J1)))
             res.info["entries_checked"] = res.info.get("entries_checked", 0) + int(np.sum(smooth))
             res.info["entries_skipped_nonsmooth"] = res.info.get("entries_skipped_nonsmooth", 0) + int(np.sum(~smooth))
